@@ -197,13 +197,13 @@ static const Form FORMS[] = {
   {"jmp call", "R64", "-", KW_NONE, "branchind"}, {"jmp call", "M64", "-", KW_OPT, "branchind"},
   {"jmp call", "FARM", "wdq", KW_REQ, "branchfar"},
   // ---- BMI2 ----
-  {"bextr bzhi sarx shlx shrx", "R,R,R", "dq", KW_NONE, "bmi"}, {"bextr bzhi sarx shlx shrx", "R,M,R", "dq", KW_NONE, "bmi"},
-  {"mulx", "R,R,R", "dq", KW_NONE, "bmi"}, {"mulx", "R,R,M", "dq", KW_NONE, "bmi"},
-  {"rorx", "R,R,I8", "dq", KW_NONE, "bmi"}, {"rorx", "R,M,I8", "dq", KW_NONE, "bmi"},
+  {"bextr bzhi sarx shlx shrx", "R,R,R", "dq", KW_NONE, "bmi"}, {"bextr bzhi sarx shlx shrx", "R,M,R", "dq", KW_OPT, "bmi"},
+  {"mulx", "R,R,R", "dq", KW_NONE, "bmi"}, {"mulx", "R,R,M", "dq", KW_OPT, "bmi"},
+  {"rorx", "R,R,I8", "dq", KW_NONE, "bmi"}, {"rorx", "R,M,I8", "dq", KW_OPT, "bmi"},
   // ---- MMX / SSE ----
-  {"movd", "X,R32", "-", KW_NONE, "sse"}, {"movd", "X,M32", "-", KW_NONE, "sse"}, {"movd", "R32,X", "-", KW_NONE, "sse"}, {"movd", "M32,X", "-", KW_NONE, "sse"},
-  {"movq", "X,R64", "-", KW_NONE, "sse"}, {"movq", "R64,X", "-", KW_NONE, "sse"}, {"movq", "X,X", "-", KW_NONE, "sse"}, {"movq", "X,M64", "-", KW_NONE, "sse"}, {"movq", "M64,X", "-", KW_NONE, "sse"},
-  {"movntq", "M64,MM", "-", KW_NONE, "mmx"}, {"movntdqa", "X,M128", "-", KW_NONE, "sse"},
+  {"movd", "X,R32", "-", KW_NONE, "sse"}, {"movd", "X,M32", "-", KW_OPT, "sse"}, {"movd", "R32,X", "-", KW_NONE, "sse"}, {"movd", "M32,X", "-", KW_OPT, "sse"},
+  {"movq", "X,R64", "-", KW_NONE, "sse"}, {"movq", "R64,X", "-", KW_NONE, "sse"}, {"movq", "X,X", "-", KW_NONE, "sse"}, {"movq", "X,M64", "-", KW_OPT, "sse"}, {"movq", "M64,X", "-", KW_OPT, "sse"},
+  {"movntq", "M64,MM", "-", KW_OPT, "mmx"}, {"movntdqa", "X,M128", "-", KW_NONE, "sse"},
   {PMMX " pand", "MM,MM", "-", KW_NONE, "mmx"}, {PMMX " pand", "MM,M64", "-", KW_NONE, "mmx"},
   {PMMX " pand pmulld pmuldq punpcklqdq cvtdq2pd cvtpd2dq divpd mulpd", "X,X", "-", KW_NONE, "sse"},
   {PMMX " pmulld pmuldq", "X,M128", "-", KW_NONE, "sse"},
